@@ -1084,6 +1084,8 @@ def call_builtin(it, f, args, kwargs, node):
         if dm is not hashlib.sha512:
             raise Unsupported("hmac digestmod")
         return E.HashObj("hmac_sha512", (key, msg))
+    if f is builtins.globals:
+        return it.cur_frame.globals
     if f is builtins.len:
         (x,) = args
         if isinstance(x, (list, tuple, dict, str, bytes, range)):
